@@ -583,9 +583,37 @@ def oracle(R):
     return probs
 
 
+KIND_OF_BASE = {"INTEGER": "integer", "REAL": "real", "NUMBER": "real", "STRING": "strBin", "BINARY": "strBin", "BOOLEAN": "logBool",
+                "LOGICAL": "logBool", "ENUM": "enumeration", "SELECT": "select", "ENTITY": "entity", "AGGR": "aggregate"}
+
+
+def accessor_kinds(R):
+    """the accessor template the model assigns to every attribute (`accKindOf`) against the kind whose generated test the real
+    class compiles and passes (the tests of acc_inc are written per base kind of the attribute's type)"""
+    s = R.schema
+    model = {(x[1], x[2]): x[5] for x in R.names if x[0] == "ACCN" and len(x) > 5}
+    for e in s.entities:
+        en = e["name"].lower()
+        for a in e["attrs"]:
+            dn = (a["redecl"].lower() + "." if a["redecl"] else "") + a["name"].lower()
+            if a["kind"] == "D":
+                want = "-"
+            elif a["kind"] == "I":
+                want = "inverseAggr" if a["type"][0] == "A" else "inverseEntity"
+            else:
+                want = KIND_OF_BASE[s.base_kind(a["type"])]
+            got = model.get((en, dn))
+            if got != want:
+                return f"accessor template of {en}.{dn}: model says {got!r}, the class exp2cxx emits is exercised as {want!r}"
+    return None
+
+
 def correspondence(R):
     if R.status != "ok":
         return None
+    k = accessor_kinds(R)
+    if k:
+        return k
     _, mdl, _ = canon_real(R.real)
     if mdl == R.model:
         if getattr(R, "script", None) is not None and R.reg_real != R.reg_model:
@@ -937,7 +965,7 @@ def setup(ctx):
         "single-schema inputs; aggregate bounds are integer literals or `?`; no USE/REFERENCE; the text of a rule's expression is compared "
         "up to layout (white space, parentheses): the expression printer is C07's subject",
     ]
-    ok = ctx.lean("StepModel.Props.C02", exes=["m_c02"], extractors=["dictgen", "accessors", "rulegen"])
+    ok = ctx.lean("StepModel.Props.C02", exes=["m_c02"], extractors=["dictgen", "accessors", "rulegen", "registry"])
     b = ctx.build("plain")
     return ok, b, ctx.model_exe("m_c02")
 
